@@ -273,6 +273,10 @@ func c20CRSetup(k connCfg, variant string) func(c *fw.Ctx, name string) explore.
 				p.Window = 0
 				p.CloseErr = vpipe.ErrTransport // e.g. TLS: close_notify could not be written
 			}
+			if variant == "transport-close-lingers" {
+				p.Window = 0
+				p.CloseDelay = 17 * time.Second
+			}
 			var live []string
 			var ended bool
 			var endErr error
@@ -295,7 +299,7 @@ func c20CRSetup(k connCfg, variant string) func(c *fw.Ctx, name string) explore.
 				}
 				w.GoHarness("peer", false, func() {
 					vs.BlockOn(unsafe.Pointer(&gate), "wait-closereads", func() bool { return ncr == crs }, func() {})
-					if variant == "transport-close-fails" {
+					if variant == "transport-close-fails" || variant == "transport-close-lingers" {
 						return
 					}
 					p.Send(peerData(k, frame.OpBinary, true, fill(0xEE, 3)))
@@ -312,8 +316,22 @@ func c20CRSetup(k connCfg, variant string) func(c *fw.Ctx, name string) explore.
 						p.Send(fr[:len(fr)-7])
 					}
 				})
+				if variant == "transport-close-lingers" {
+					// a Ping whose context expires while it is being written makes the timeout
+					// watcher close the connection; the transport's Close then lingers for 17 s
+					w.GoHarness("expiring-call", false, func() {
+						vs.BlockOn(unsafe.Pointer(&gate), "wait-closereads", func() bool { return ncr == crs }, func() {})
+						p.SetWindow(1)
+						ctx, cancel := vctx.WithTimeout(bg, 50*time.Millisecond)
+						defer cancel()
+						conn.Ping(ctx)
+					})
+				}
 				w.GoHarness("closer", true, func() {
 					vs.BlockOn(unsafe.Pointer(&gate), "wait-closereads", func() bool { return ncr == crs }, func() {})
+					if variant == "transport-close-lingers" {
+						vtime.Sleep(time.Second) // the connection is being closed by the library by now
+					}
 					if variant == "slow-handshake" || variant == "stall-in-discard" {
 						// let the CloseRead goroutine start its close handshake first
 						p.WaitOut("close-begun", func(out []byte) bool { return len(out) > 0 })
@@ -417,7 +435,7 @@ func c20Scenarios(tier string) []scenario {
 		}
 	}
 	for _, k := range []connCfg{{Client: false}, {Client: true}} {
-		for _, v := range []string{"two-closeread", "slow-handshake", "stall-in-discard", "transport-close-fails"} {
+		for _, v := range []string{"two-closeread", "slow-handshake", "stall-in-discard", "transport-close-fails", "transport-close-lingers"} {
 			pv := 2
 			if tier == "thorough" {
 				pv = 3
